@@ -7,3 +7,4 @@ from . import lookup         # noqa: F401
 from . import index          # noqa: F401
 from . import index2         # noqa: F401
 from . import cdl            # noqa: F401
+from . import wchar          # noqa: F401
